@@ -209,7 +209,7 @@ def state_matches(spec_state, proj):
     diffs = []
     if sorted(spec_state['built']) != proj['built']:
         diffs.append(('built', sorted(spec_state['built']), proj['built']))
-    for n, v in spec_state['cache'].items():
+    for n, v in (spec_state['cache'] if isinstance(spec_state['cache'], dict) else {}).items():
         if proj['cache'].get(n) != v:
             diffs.append(('cache', n, v, proj['cache'].get(n)))
     if sorted(map(tuple, spec_state['edges'])) != sorted(map(tuple, proj['edges'])):
@@ -419,6 +419,68 @@ def gen_iter_graph(name, wb, pool, choices, acyclic, settable=None, timeout=1800
             continue
         seen.add((kf, ak))
         g.out[kf].append((rec['act'], rec['ret'], kt))
+    res.stdout, res.json = '', []
+    if len(g.states) != res.distinct:
+        raise tlc.MachineryFailure(
+            f'export incomplete: {len(g.states)} states parsed, TLC found {res.distinct}')
+    return g
+
+
+# ---------------------------------------------------------------------------
+# EngineFail.tla (C09, plain mode)
+
+def canon_fstate(s):
+    ovr = s['ovr'] if isinstance(s['ovr'], dict) else {}
+    return json.dumps(dict(
+        inp=s['inp'], built=sorted(s['built']), cache=s['cache'],
+        edges=sorted(map(tuple, s['edges'])), changed=s['changed'],
+        broken=sorted(s['broken']), ovr=ovr), sort_keys=True)
+
+
+def gen_fail_graph(name, wb, pool, src, breakable, init_broken, dynamic,
+                   settable=None, timeout=1800, depth=0, fail_early=()):
+    d = tlc.new_scratch('fail')
+    mod = f'MC_{name}_fail'
+    extra = (f'MCBreakable == {W.tla_set(map(W.q, breakable))}\n'
+             f'MCInitBroken == {W.tla_set(map(W.q, init_broken))}\n'
+             f'MCDynamic == {"TRUE" if dynamic else "FALSE"}\n'
+             f'MCFailEarly == {W.tla_set(map(W.q, fail_early))}\n'
+             f'DepthBound == TLCGet("level") <= {depth or 99}')
+    with open(os.path.join(d, mod + '.tla'), 'w') as f:
+        f.write(W.tla_constants(wb, pool, src, mod, settable=settable,
+                                extends='EngineFail', extra=extra))
+    with open(os.path.join(d, 'gen.cfg'), 'w') as f:
+        f.write(W.CONST_CFG + '  Breakable <- MCBreakable\n  InitBroken <- MCInitBroken\n'
+                '  Dynamic <- MCDynamic\n  FailEarly <- MCFailEarly\n'
+                'SPECIFICATION FSpec\nVIEW fview\n'
+                'INVARIANT ReturnsTrue\nINVARIANT RaiseJustified\nINVARIANT CoherentF\n'
+                'INVARIANT UnrelatedOK\nINVARIANT FPrintInit\n'
+                'ACTION_CONSTRAINT FPrintEdge\n'
+                + ('CONSTRAINT DepthBound\n' if depth else ''))
+    res = tlc.run(mod, os.path.join(d, 'gen.cfg'), spec_dir=d, workers=1,
+                  library=tlc.SPEC, timeout=timeout, heap='3g')
+    if not res.ok:
+        raise tlc.MachineryFailure(
+            f'EngineFail model {name}/{src} violates {res.violated}:\n'
+            + '\n'.join(l for l in res.stdout.splitlines()
+                        if not l.startswith('"'))[-3000:])
+    g = Graph()
+    g.tlc = res
+    seen = set()
+    for rec in res.json:
+        if 'init' in rec:
+            k = canon_fstate(rec['init'])
+            g.init = k
+            g.states[k] = rec['init']
+            continue
+        kf, kt = canon_fstate(rec['from']), canon_fstate(rec['to'])
+        g.states.setdefault(kf, rec['from'])
+        g.states.setdefault(kt, rec['to'])
+        ak = json.dumps(rec['act'], sort_keys=True)
+        if (kf, ak) in seen:
+            continue
+        seen.add((kf, ak))
+        g.out[kf].append((dict(rec['act'], raised=rec['raised']), rec['ret'], kt))
     res.stdout, res.json = '', []
     if len(g.states) != res.distinct:
         raise tlc.MachineryFailure(
